@@ -592,6 +592,87 @@ func c19RunSession(q *c19Query, pl c19SessionPlan) c19Result {
 	return c19Result{rt: rt}
 }
 
+// c19SessionCase answers q through a payment session and judges the answer.
+// q.CltvLimit keeps its RestrictParams meaning (excluding the final delta);
+// the LightningPayment limit is derived from it.
+func c19SessionCase(t *rapid.T, st *vstats.Collector, q *c19Query,
+	pl c19SessionPlan, phase string) (c19Result, c19Facts, bool) {
+
+	// Final delta as the session computes it.
+	var (
+		padded   = q.FinalDlt + BlockPadding
+		finalEff = uint64(padded) // what the payee's hop must get
+	)
+	pl.FinalDltPay = q.FinalDlt
+	if q.isBlinded() {
+		single := uint16(0)
+		for _, bp := range q.Blinded {
+			if len(bp.Hops) == 1 {
+				single = bp.Delta
+				break
+			}
+		}
+		pl.FinalDltPay = single
+		padded = single + BlockPadding
+		finalEff = uint64(single)
+	}
+	// LightningPayment.CltvLimit bounds the total time lock relative to
+	// the height and must exceed the padded delta (ValidateCLTVLimit); the
+	// session subtracts the padded delta again.
+	want := uint64(q.CltvLimit) + uint64(padded)
+	if want > math.MaxUint32 {
+		want = math.MaxUint32
+	}
+	pl.PayCltv = uint32(want)
+
+	res := c19RunSession(q, pl)
+	if errors.Is(res.err, errC19Domain) {
+		st.Count("outside_domain", 1)
+		return res, c19Facts{}, false
+	}
+
+	ex := c19Expect{Amt: q.Amt, FinalDelta: padded, TotalAmt: pl.Total}
+	if res.rt != nil {
+		// Which shard size did the session settle on?
+		start := pl.MaxAmt
+		if pl.MaxShard > 0 && start > pl.MaxShard {
+			start = pl.MaxShard
+		}
+		got := uint64(res.rt.ReceiverAmt())
+		amt, k := start, 0
+		for amt > got {
+			amt /= 2
+			k++
+		}
+		if amt != got || got == 0 {
+			t.Fatalf("C19 violated (%s)\nshard amount %d is not "+
+				"maxAmt %d halved\nmodel:\n%vrequest: %v plan=%+v\n"+
+				"route: %v", phase, got, start, q.m, q, pl,
+				c19RouteString(q.m, res.rt))
+		}
+		if k > 0 {
+			canSplit := (q.PayAddr || q.isBlinded()) &&
+				pl.Active+1 < pl.MaxParts &&
+				got >= uint64(DefaultShardMinAmt)
+			if !canSplit {
+				t.Fatalf("C19 violated (%s)\nsplit to %d although "+
+					"splitting is not allowed\nmodel:\n%vrequest: "+
+					"%v plan=%+v", phase, got, q.m, q, pl)
+			}
+			phase += "_split"
+		}
+		ex.Amt = got
+	}
+	// Judge against what was actually sent; the oracle adds the effective
+	// final delta to q.CltvLimit: total time lock <= height + PayCltv.
+	qj := *q
+	qj.Amt = ex.Amt
+	qj.CltvLimit = uint32(want - finalEff)
+	f, ok := c19Judge(t, st, &qj, ex, res, phase, false)
+
+	return res, f, ok
+}
+
 // TestVerifC19RequestRoute: the same judgement for routes handed out by a
 // payment session (block padding, CLTV limit including the final delta,
 // MPP splitting by halving).
@@ -612,101 +693,41 @@ func TestVerifC19RequestRoute(t *testing.T) {
 		c19ApplyKnown(st, q)
 
 		pl := c19SessionPlan{MaxAmt: q.Amt, Total: q.Amt}
-		if c19Chance(t, "mppTotal", 40) {
+		if c19Chance(t, "mppTotal", 50) {
 			pl.Total = q.Amt + rapid.Uint64Range(0, 4*q.Amt).Draw(
 				t, "mppExtra")
 		}
-		pl.MaxParts = c19Pick(t, "maxParts", uint32(1), 1, 4, 16)
-		pl.Active = uint32(rapid.IntRange(0, 3).Draw(t, "activeShards"))
-		if c19Chance(t, "maxShard", 15) {
+		pl.MaxParts = c19Pick(t, "maxParts", uint32(1), 4, 16, 1)
+		pl.Active = uint32(c19Pick(t, "activeShards", 0, 0, 1, 3))
+		if c19Chance(t, "maxShard", 25) {
 			pl.MaxShard = rapid.Uint64Range(1, 2*q.Amt).Draw(
 				t, "maxShardAmt")
 		}
 		if pl.MaxParts > 1 && !q.isBlinded() &&
-			c19Chance(t, "forceMpp", 60) {
+			!c19Chance(t, "noMpp", 40) {
 
 			q.PayAddr = true
 			q.DestFeat = 1
 		}
 
-		// Final delta as the session computes it.
-		var (
-			padded   = q.FinalDlt + BlockPadding
-			finalEff = uint64(padded) // what the payee's hop must get
-		)
-		pl.FinalDltPay = q.FinalDlt
-		if q.isBlinded() {
-			single := uint16(0)
-			for _, bp := range q.Blinded {
-				if len(bp.Hops) == 1 {
-					single = bp.Delta
-					break
-				}
-			}
-			pl.FinalDltPay = single
-			padded = single + BlockPadding
-			finalEff = uint64(single)
-		}
-		// LightningPayment.CltvLimit bounds the total time lock
-		// relative to the height and must exceed the padded delta
-		// (ValidateCLTVLimit); the session subtracts the padded delta.
-		want := uint64(q.CltvLimit) + uint64(padded)
-		if want > math.MaxUint32 {
-			want = math.MaxUint32
-		}
-		pl.PayCltv = uint32(want)
-		// For the oracle: total time lock <= height + PayCltv. It adds
-		// the effective final delta back onto q.CltvLimit.
-		q.CltvLimit = uint32(want - finalEff)
-
-		res := c19RunSession(q, pl)
-		if errors.Is(res.err, errC19Domain) {
-			st.Count("outside_domain", 1)
+		res, f, ok := c19SessionCase(t, st, q, pl, "session")
+		if !ok || res.rt == nil {
 			return
 		}
-
-		ex := c19Expect{
-			Amt: q.Amt, FinalDelta: padded, TotalAmt: pl.Total,
+		if uint64(res.rt.ReceiverAmt()) != q.Amt {
+			// Tighten relative to the shard that was found.
+			q.Amt = uint64(res.rt.ReceiverAmt())
+			pl.MaxAmt = q.Amt
 		}
-		if res.rt != nil {
-			// Which shard size did the session settle on?
-			start := pl.MaxAmt
-			if pl.MaxShard > 0 && start > pl.MaxShard {
-				start = pl.MaxShard
-			}
-			got := uint64(res.rt.ReceiverAmt())
-			amt, k := start, 0
-			for amt > got {
-				amt /= 2
-				k++
-			}
-			if amt != got || got == 0 {
-				t.Fatalf("C19 violated (session)\nshard amount %d is "+
-					"not maxAmt %d halved\nmodel:\n%vrequest: %v "+
-					"plan=%+v\nroute: %v", got, start, q.m, q, pl,
-					c19RouteString(q.m, res.rt))
-			}
-			if k > 0 {
-				canSplit := (q.PayAddr || q.isBlinded()) &&
-					pl.Active+1 < pl.MaxParts &&
-					got >= uint64(DefaultShardMinAmt)
-				if !canSplit {
-					t.Fatalf("C19 violated (session)\nsplit to %d "+
-						"although splitting is not allowed\n"+
-						"model:\n%vrequest: %v plan=%+v", got, q.m,
-						q, pl)
-				}
-			}
-			ex.Amt = got
+		q2, mode := c19Tighten(t, q, res.rt, f)
+		if q2 == nil {
+			return
 		}
-		// The blinded min/max were drawn around q.Amt; judge against
-		// what was actually sent.
-		qj := *q
-		qj.Amt = ex.Amt
-		phase := "session"
-		if ex.Amt != q.Amt {
-			phase = "session_split"
+		pl.MaxAmt = q2.Amt
+		if pl.Total < q2.Amt {
+			pl.Total = q2.Amt
 		}
-		c19Judge(t, st, &qj, ex, res, phase, false)
+		c19ApplyKnown(st, q2)
+		c19SessionCase(t, st, q2, pl, "session_tight_"+mode)
 	})
 }
